@@ -241,3 +241,26 @@ def r5(ctx: Ctx) -> None:
     ctx.site(ETREE, "readers of the debug mask", readers=sorted(set(readers)))
     for r in sorted(set(readers) - {"debug", "turn_off_flag", "turn_on_flag"}):
         ctx.report(ETREE + "::" + r, f"debug-mask-read {r}", f"{r} reads the debug mask: a result may depend on flags left by an earlier run", lineno=0)
+
+
+@rule("C20", "R6.own-tolerance", "DATAFLOW",
+      "the tolerance an object keeps for its own acceptance checks (Die._epsilon) is computed from that object's own size "
+      "and never read back from the process-wide tolerance, which belongs to whichever design was loaded first", floor=1)
+def r6(ctx: Ctx) -> None:
+    n = 0
+    for f in ctx.model.all_functions():
+        if not f.module.relpath.startswith("frame/"):
+            continue
+        for st in walk_own(f.node):
+            if isinstance(st, (ast.Assign, ast.AnnAssign)):
+                tgts = st.targets if isinstance(st, ast.Assign) else [st.target]
+                for t in tgts:
+                    if isinstance(t, ast.Attribute) and isinstance(t.value, ast.Name) and t.value.id == "self" and "epsilon" in t.attr.lower() and st.value is not None:
+                        n += 1
+                        reads_global = [x for x in ast.walk(st.value) if isinstance(x, ast.Attribute) and x.attr in ("distance_epsilon", "area_epsilon", "_distance_epsilon", "_area_epsilon")]
+                        own = [x for x in ast.walk(st.value) if isinstance(x, ast.Attribute) and isinstance(x.value, ast.Name) and x.value.id == "self"]
+                        ctx.site(f.where, "own tolerance derived from own size", stmt=norm_stmt(st)[:90], reads_process_wide=len(reads_global), reads_own=len(own))
+                        if reads_global or not own:
+                            ctx.report(f.where, f"tolerance-from-global {norm_stmt(st)[:80]}", f"{f.qualname} takes its own tolerance from the process-wide one (set by the first design "
+                                       "loaded in the process): the accept/reject verdict for this object depends on what was loaded before", lineno=st.lineno)
+    ctx.require(n >= 1, "no object-level tolerance found (Die._epsilon expected)")
